@@ -52,7 +52,7 @@ def opOK (fields : List (String × FTy)) : DecOp → Bool
 /-- what a statement may request from the allocator beyond the octets it consumes -/
 def opOver (fields : List (String × FTy)) : DecOp → Nat
   | .repMake _ c _ => (exprBound fields c).getD 0    -- `make([]string, count)`: one slot per declared entry
-  | .tlvsRead _ => 65535                             -- one value buffer sized by an unchecked 16-bit length
+  | .tlvsRead _ => 1                                 -- the value buffer is bounded by the input left to read (+1 on the failing path)
   | _ => 0
 
 /-- octets a statement must consume when it completes without a reader error -/
@@ -233,7 +233,7 @@ theorem ops_step (fields : List (String × FTy)) : ∀ (ops : List DecOp), ops.a
     translator met no statement outside its closed set), integer fields are read at their width -/
 def layoutOK (p : PduDesc) : Bool :=
   p.dec.all (opOK p.fields)
-  && decide (allocConst p ≤ 65535 + 255)
+  && decide (allocConst p ≤ 1 + 255)
   && (p.ret != .nilAlways || decide (mandatoryMin p ≤ guardOf p.dec))
 
 /-- PDU types whose body is conditional (SMPP 3.4: a response with a non-zero command_status has no body, the
@@ -265,10 +265,11 @@ theorem C03_no_panic (p : PduDesc) (hp : p ∈ Gen.allPdus) (hc : conditional p 
     split <;> (split <;> first | exact Or.inl rfl | exact Or.inr ⟨_, rfl⟩)
 
 /-- **C03_alloc_proportional**: what a decoder requests from the allocator is at most the
-    input length plus a constant (255 destination slots and one 16-bit value buffer): a length
-    field is never trusted before the octets it announces have been seen. -/
+    input length plus a small constant (255 destination slots, one octet on the failing path of an
+    optional-parameter value): a length field is never trusted before the octets it announces have
+    been seen. -/
 theorem C03_alloc_proportional (p : PduDesc) (hp : p ∈ Gen.allPdus) (hcond : conditional p = false) (data : Bytes)
-    (hoct : ∀ x ∈ data, x < 256) : p.decodeAlloc data ≤ data.length + 65790 := by
+    (hoct : ∀ x ∈ data, x < 256) : p.decodeAlloc data ≤ data.length + 256 := by
   have h := List.all_eq_true.1 layouts_bounded p (List.mem_filter.2 ⟨hp, by rw [hcond]; rfl⟩)
   simp only [layoutOK, Bool.and_eq_true, decide_eq_true_eq] at h
   obtain ⟨⟨hok, hc⟩, _⟩ := h
@@ -359,7 +360,7 @@ example : (match Gen.cmpp20_PduSubmit.decode (be 4 12 ++ be 4 4 ++ be 4 1) with 
   decide +kernel
 /-- a count octet of 255 with nothing behind it: the model requests 255 slots and no octets -/
 example : Gen.allPdus.any (fun p => allocConst p == 255) = true := by decide +kernel
-example : Gen.allPdus.any (fun p => allocConst p == 65535) = true := by decide +kernel
+example : Gen.allPdus.any (fun p => allocConst p == 1) = true := by decide +kernel
 
 end SmsVerif.C03
 
